@@ -585,6 +585,24 @@ def config_field_integrity(ctx, rule, field, floor=4, owners=CFG_OWNERS):
                     continue
                 bad.append(flow.leaf_str(l))
             R.check(not bad and bool(lv), rule, key, "%s stores %s verbatim" % (short(b.path), field), "%s does not carry the configured `%s` verbatim: the value written to %s.%s comes from %s (a setter must store what it is given; a config rebuilt from defaults silently drops the configured limit)" % (short(b.path), field, owner.split("::")[-1], field, bad or "nothing traceable"), "%s:%d" % (b.file, b.lo))
+    # ... and a setter configures one thing: the parameter a function stores into `field` is stored into no other field of
+    # the configuration (a `max_response_body_size(n)` that also overwrites the request limit makes the answer to "which
+    # requests are accepted" depend on the order of two unrelated builder calls)
+    by_body = {}
+    for (owner, fname), lst in tr._field_writes.items():
+        if owner not in owners:
+            continue
+        for b, op in lst:
+            if is_test_body(b) or "rvwrap" in op:
+                continue
+            for l in tr.origins(b, op):
+                if l.kind == "param" and l.detail.get("name") != "<env>":
+                    by_body.setdefault((b.path, l.detail.get("name")), []).append((b, owner, fname))
+    for (bp, pname), ws in sorted(by_body.items()):
+        fields = sorted({f for _, _, f in ws})
+        if field in fields and len(fields) > 1:
+            b = ws[0][0]
+            R.bad(rule, "%s:one-field-per-parameter" % fkey(b), "%s stores its parameter `%s` into %s: setting `%s` silently changes %s as well" % (short(b.path), pname, fields, field, [f for f in fields if f != field]), "%s:%d" % (b.file, b.lo))
     R.floor(rule, n, floor, "writes of the config field `%s`" % field)
 
 
@@ -1268,6 +1286,61 @@ def manager_keys_not_derived(ctx, rule, floor=10):
         scans = [c for x in bodies for c in x.calls_to(r"(HashMap|BTreeMap)::<.*>::(keys|iter|values|iter_mut|values_mut|drain|retain|into_iter|into_keys|into_values|extract_if)$|Iterator>?::(min_by_key|max_by_key|min_by|max_by|find|find_map|min|max|last|nth|position)$")]
         R.check(not scans, rule, "%s:no-table-scan" % fkey(b), "%s reaches entries by key only" % short(b.path), "%s selects an entry by scanning a table (%s) instead of by the id of the message at hand: an answer that carries no usable id is attributed to whichever entry the scan picks - another call's or batch's slots are filled with it" % (short(b.path), sorted({short(c.name()) for c in scans})), where(scans[0]) if scans else None)
     R.floor(rule, n, floor, "keyed table operations in RequestManager")
+
+
+def builder_rebuilds_copy_fields_verbatim(ctx, rule, adt_rx, floor=2):
+    """a builder method that changes the builder's *type* (installing a middleware) has to rebuild the value field by
+    field: in every construction of the builder inside one of its own methods, a field taken from `self` comes from the
+    field of the same name. (`max_response_size: self.max_request_size` in one of two sibling methods makes a configured
+    limit apply or not depending on which otherwise unrelated builder call was made.)"""
+    F, R = ctx.F, ctx.R
+    tr = ctx.tracer(follow_callers=False, follow_fields=False, inline_calls=False)
+    n = 0
+    for b in F.real_bodies():
+        if is_test_body(b) or not re.search(adt_rx, b.impl_self or ""):
+            continue
+        for bi, blk in enumerate(b.blocks):
+            if bi not in b.reachable or blk.get("cleanup"):
+                continue
+            for st in blk["st"]:
+                if st["s"] != "assign" or st["rv"]["k"] != "agg" or st["rv"].get("ak") != "adt" or not re.search(adt_rx, st["rv"].get("adt") or ""):
+                    continue
+                owner = st["rv"]["adt"]
+                n += 1
+                R.fn(b)
+                wrong = []
+                for fname, op in zip(st["rv"]["fields"], st["rv"]["ops"]):
+                    for l in tr.origins(b, op):
+                        if l.kind == "field" and l.detail["fields"]:
+                            o_, f_ = l.detail["fields"][-1]
+                            if o_ == owner and f_ != fname and len(l.detail["fields"]) == 1:
+                                wrong.append("%s <- self.%s" % (fname, f_))
+                R.check(not wrong, rule, "%s:rebuild-verbatim" % fkey(b), "%s copies every field it keeps from the field of the same name" % short(b.path), "%s rebuilds the builder with %s: after this call a configured value is replaced by another setting's value, unlike in its sibling methods" % (short(b.path), wrong), "%s:%d" % (b.file, st["sp"][0]))
+    R.floor(rule, n, floor, "constructions of the builder inside its own methods")
+    return n
+
+
+def server_unsubscribe_key_is_the_decoded_id(ctx, rule):
+    """the server's unsubscribe handler looks the subscription up under exactly the id it decoded from the params: the key
+    is not rebuilt from it (a digit-only string turned into a number, a number formatted as a string). `accept` stores
+    the key as the id provider produced it and writes that same value into the subscribe reply; a reader that normalises
+    the echoed id no longer finds the entry (the subscription cannot be ended) or finds another one."""
+    F, R = ctx.F, ctx.R
+    tr = ctx.tracer(follow_callers=False, follow_fields=False)
+    cb = F.one(r"^jsonrpsee_core::server::rpc_module::RpcModule::<Context>::verify_and_register_unsubscribe::\{closure#0\}$")
+    R.fn(cb)
+    n = 0
+    for r in cb.calls_to(r"HashMap::<.*>::(remove|remove_entry|get|get_mut|contains_key|entry)$"):
+        if len(r.args) < 2:
+            continue
+        for l in tr.origins(cb, r.args[1]):
+            if l.kind == "agg" and (l.detail.get("adt") or "").endswith("SubscriptionKey"):
+                ops = dict(zip(l.detail["fields"], l.detail["ops"]))
+                ls = tr.origins(cb, ops["sub_id"])
+                n += 1
+                derived = [x for x in ls if (x.kind == "agg" and re.search(r"SubscriptionId$", x.detail.get("adt") or "")) or (x.kind == "call" and re.search(r"to_string$|str::<impl str>::parse$|fmt::format$|FromStr>::from_str$|from_str_radix$", x.detail["callee"] or ""))]
+                R.check(not derived, rule, "unsubscribe:key-not-rebuilt", "the unsubscribe handler looks the table up with the id as decoded", "the unsubscribe handler looks the subscribers table up with an id it rebuilt (%s) instead of the id as decoded: `\"7\"` and `7` are different subscription ids, and the key `accept` stored is the one the subscribe reply carried" % [leaf_str(x)[:70] for x in derived], where(r))
+    R.floor(rule, n, 1, "keyed lookups of the unsubscribe handler")
 
 
 def wire_ids_derive_both(ctx, rule):
